@@ -1527,7 +1527,9 @@ func AggrFunExpr(query *Query, current Map, expr sqlparser.AggrFunc, opts ...Exp
 		}
 		return result, nil
 	}
-	rs, ok := query.singletonExecutions[name]
+	// memoised per aggregate call (function and arguments), not per function name
+	key := sqlparser.String(expr)
+	rs, ok := query.singletonExecutions[key]
 	if !ok {
 		rows := query.from
 		if all, ok := current["*"].([]any); ok {
@@ -1541,7 +1543,7 @@ func AggrFunExpr(query *Query, current Map, expr sqlparser.AggrFunc, opts ...Exp
 		if err != nil {
 			return nil, err
 		}
-		query.singletonExecutions[name] = result
+		query.singletonExecutions[key] = result
 		return result, nil
 	}
 	return rs, nil
